@@ -33,6 +33,8 @@ def run(res):
         res.seed += i
         cc.trace_validate(res, 'c08_recorded_%d' % i, 7, 600 if th else 80, 60)
         res.seed -= i
+    if th:
+        cc.repo_tests_validate(res)
     cc.apalache_timer_core(res)
     if th:
         # longer waits, dt up to 4, kills in the mix: model checking only (too large to dump)
